@@ -11,7 +11,8 @@ import warnings
 
 
 def default_run_shard(mod, shard, rec):
-    rnd = random.Random('%s:%s:%s' % (mod.PROP, shard['seed'], shard['name']))
+    rnd = random.Random('%s:%s:%s' % (mod.PROP, shard['seed'],
+                                      shard.get('rng_name', shard['name'])))
     only = shard.get('only_index')
     for i, case in enumerate(mod.cases(shard, rnd)):
         if only is not None:
